@@ -631,3 +631,51 @@ class parse_assignment_slice_branch:
                     continue
                 seen.add(key)
                 yield {"index": ns, "size": size, "i": 0, "implied_shape": [], "implied_shape_positions": [], "reverse": []}
+
+
+# ---- chunk sizes of a contiguous range [start, start+length) of an axis: two near-identical loops ----
+def _range_chunks_contract(target, key_props, tail_zero):
+    @contract(target, props=key_props)
+    class slice_chunks:
+        """the chunks advertised for a contiguous range of an axis: positive sizes that add up to the range length
+        (or the single chunk (0,) for an empty range)"""
+        params = {"self": "obj:Any", "chunks": "seq", "start": "int", "length": "int"}
+        result = "seq"
+        fields = {"Any": {}}
+
+        def requires(self, chunks, start, length):
+            return S.And(S.chunking(chunks), 0 <= start, 0 <= length, start + length <= S.ssum(chunks))
+
+        def facts(self, chunks, start, length):
+            return [("prefix_nonneg", chunks)]
+
+        def ensures(result, self, chunks, start, length):
+            return {
+                "sum": S.ssum(result) == length,
+                "nonneg": S.forall_idx(result, lambda j: S.at(result, j) >= 0),
+                "positive-unless-empty": S.Implies(length > 0, S.forall_idx(result, lambda j: S.at(result, j) >= 1)),
+                "nonempty": S.slen(result) >= 1,
+            }
+
+        loops = {
+            "for#1": Loop(invariant=lambda v, v0: {
+                "pos": (v.cumsum if tail_zero else v.pos) == S.prefix(v.chunks, v.it),
+                "sum": S.ssum(v.result) == S.max_(0, S.min_((v.cumsum if tail_zero else v.pos), v.start + v.length) - v.start),
+                "positive": S.forall_idx(v.result, lambda j: S.at(v.result, j) >= 1),
+            }),
+        }
+
+        def call(fn, self, chunks, start, length):
+            return fn(None, chunks, start, length)
+
+        def domain(tier, rng):
+            for n, c in chunkings(6 if tier == "quick" else 8):
+                for start in range(0, n + 1):
+                    for length in range(0, n - start + 1):
+                        yield {"self": None, "chunks": c, "start": start, "length": length}
+
+    return slice_chunks
+
+
+SSI_slice_chunks = _range_chunks_contract(f"{BASIC}::SliceSlicesIntegers._slice_chunks", ["C02", "C03"], True)
+BT_slice_chunks = _range_chunks_contract("dask_array/_broadcast_to.py::BroadcastTo._slice_chunks", ["C02", "C03"], False)
